@@ -153,6 +153,7 @@ def system_spec(
         episodes=episodes,
         jit={nd["name"]: draw(st.integers(0, 3)) == 0 for nd in nodes},
         cls=cls,
+        carry=draw(st.booleans()) if n_eps > 1 else False,
     )
     make_supported(spec)
     return spec
